@@ -27,6 +27,7 @@ package ro
 //@ func (*observerImpl).NextWithContext
 //@   props C01 C07
 //@   binds o ctx value
+//@   scope ctx o onComplete onError onNext status value
 //@   panicforks
 //@   inline (*observerImpl).tryNext (*observerImpl).tryError
 //@   track callfn.* hook.* call.NewNotification*
@@ -41,6 +42,7 @@ package ro
 //@ func (*observerImpl).ErrorWithContext
 //@   props C01 C07
 //@   binds o ctx err
+//@   scope ctx err o onComplete onError onNext status
 //@   panicforks
 //@   inline (*observerImpl).tryError
 //@   track callfn.* hook.* call.NewNotification*
@@ -53,6 +55,7 @@ package ro
 //@ func (*observerImpl).CompleteWithContext
 //@   props C01 C07
 //@   binds o ctx
+//@   scope ctx o onComplete onError onNext status
 //@   panicforks
 //@   inline (*observerImpl).tryComplete
 //@   track callfn.* hook.* call.NewNotification*
@@ -91,6 +94,7 @@ package ro
 //@ func (*subscriberImpl).NextWithContext
 //@   props C01 C02 C06 C08
 //@   binds s ctx v
+//@   scope Subscription backpressure ctx destination mode mu s status v
 //@   track destination.* hook.* call.NewNotification* Subscription.* spawn.*
 //@   ensures [nil-destination-silent|C01] s.destination == nil ==> trace()
 //@   ensures [block-mode-waits|C08] s.backpressure != 1 ==> !tried(mu)
@@ -101,6 +105,7 @@ package ro
 //@ func (*subscriberImpl).ErrorWithContext
 //@   props C01 C02 C03 C06 C14 C07
 //@   binds s ctx err
+//@   scope Subscription backpressure ctx destination err mode mu s status
 //@   inline (*subscriberImpl).unsubscribe
 //@   track destination.* hook.* call.NewNotification* Subscription.* spawn.*
 //@   ensures [winner-delivers-then-tears-down|C01,C03,C06,C14] cas_ok(status) && s.destination != nil ==> trace(destination.ErrorWithContext(ctx, err), Subscription.Unsubscribe())
@@ -113,6 +118,7 @@ package ro
 //@ func (*subscriberImpl).CompleteWithContext
 //@   props C01 C02 C03 C06 C14
 //@   binds s ctx
+//@   scope Subscription backpressure ctx destination mode mu s status
 //@   inline (*subscriberImpl).unsubscribe
 //@   track destination.* hook.* call.NewNotification* Subscription.* spawn.*
 //@   ensures [winner-delivers-then-tears-down|C01,C03,C06,C14] cas_ok(status) && s.destination != nil ==> trace(destination.CompleteWithContext(ctx), Subscription.Unsubscribe())
@@ -125,6 +131,7 @@ package ro
 //@ func (*subscriberImpl).Unsubscribe
 //@   props C03 C06 C14
 //@   binds s
+//@   scope Subscription backpressure destination mode mu s status
 //@   inline (*subscriberImpl).unsubscribe
 //@   track destination.* hook.* Subscription.* lock.* trylock.* spawn.*
 //@   ensures [cut|C06] s.status != 0
@@ -156,6 +163,7 @@ package ro
 //@ func NewSubscription
 //@   props C03
 //@   binds teardown
+//@   scope complit makeslice teardown varargs
 //@   modular
 //@   ensures [never-nil|C03] result != nil
 //@   ensures [starts-open|C03] result.done == false
@@ -165,6 +173,7 @@ package ro
 //@ func (*subscriptionImpl).Add
 //@   props C03 C06 C14 C07
 //@   binds teardown
+//@   scope done finalizers mu s teardown varargs
 //@   panicforks
 //@   maypanic
 //@   track callfn.*
@@ -177,6 +186,7 @@ package ro
 //@ func (*subscriptionImpl).AddUnsubscribable
 //@   props C03 C14
 //@   binds s unsubscribable
+//@   scope done finalizers mu s unsubscribable
 //@   maypanic
 //@   track call.* callfn.*
 //@   ensures [nil-is-noop|C03] unsubscribable == nil ==> trace()
@@ -203,6 +213,7 @@ package ro
 //@ func execFinalizer
 //@   props C03 C07
 //@   binds finalizer
+//@   scope e err finalizer
 //@   panicforks
 //@   track callfn.*
 //@   ensures [runs-once|C03] trace(callfn.finalizer())
@@ -216,6 +227,7 @@ package ro
 //@ func (*subscriptionImpl).Wait
 //@   props C06 C15
 //@   binds s
+//@   scope ch done finalizers mu s
 //@   maypanic
 //@   track chmake chrecv.* chclose.* chsend.* call.*
 //@   ensures [waits-for-own-finalizer|C06,C15] trace(chmake(1), call.subscriptionImpl.Add(s, _), chrecv.ch, chclose.ch)
@@ -223,6 +235,7 @@ package ro
 //@ func (*subscriptionImpl).Wait$1
 //@   props C06
 //@   binds ch
+//@   scope ch done finalizers mu s
 //@   track chmake chrecv.* chclose.* chsend.*
 //@   ensures [signals-once|C06] trace(chsend.ch)
 
@@ -233,6 +246,7 @@ package ro
 //@ func newSubscriberImpl
 //@   props C01 C02 C03 C08 C13
 //@   binds mode mu backpressure destination
+//@   scope backpressure complit destination mode mu
 //@   maypanic
 //@   track destination.* call.NewSubscription
 //@   ensures [reuse-only-if-it-synchronises-as-much|C01,C02,C08,C13] result == destination ==> mode == 1 || !is_psubscriberImpl_T_(destination) || asserted(destination).mode == mode || asserted(destination).mode == 0
@@ -242,6 +256,7 @@ package ro
 //@ func NewSubscriberWithConcurrencyMode
 //@   props C02
 //@   binds destination mode
+//@   scope destination mode
 //@   maypanic
 //@   track call.*
 //@   ensures [safe-mode-gets-a-real-lock|C02] mode == 0 ==> trace(call.NewMutexWithLock(), call.newSubscriberImpl(mode, res(call.NewMutexWithLock), 0, destination))
@@ -252,6 +267,7 @@ package ro
 //@ func (*observableImpl).SubscribeWithContext
 //@   props C01 C02 C03 C07 C14
 //@   binds s ctx destination
+//@   scope ctx destination e mode s subscribe subscription
 //@   panicforks
 //@   track call.NewSubscriberWithConcurrencyMode callfn.subscribe subscription.*
 //@   ensures [destination-is-wrapped-in-a-gate-of-the-observable-mode|C01,C02] arg(call.NewSubscriberWithConcurrencyMode, 0) == destination && arg(call.NewSubscriberWithConcurrencyMode, 1) == s.mode
@@ -268,35 +284,41 @@ package ro
 //@ func NewObservableWithConcurrencyMode
 //@   props C01 C02
 //@   binds subscribe mode
+//@   scope complit mode subscribe
 //@   ensures [records-the-mode-and-the-subscribe-function|C01,C02] result.mode == mode && result.subscribe == subscribe
 
 //@ func NewSafeObservableWithContext
 //@   props C01 C02
 //@   binds subscribe
+//@   scope subscribe
 //@   track call.NewObservableWithConcurrencyMode
 //@   ensures [safe-is-the-locking-mode|C01,C02] trace(call.NewObservableWithConcurrencyMode(subscribe, 0))
 
 //@ func NewUnsafeObservableWithContext
 //@   props C01 C02
 //@   binds subscribe
+//@   scope subscribe
 //@   track call.NewObservableWithConcurrencyMode
 //@   ensures [unsafe-is-the-lock-free-mode|C02] trace(call.NewObservableWithConcurrencyMode(subscribe, 1))
 
 //@ func NewEventuallySafeObservableWithContext
 //@   props C01 C02
 //@   binds subscribe
+//@   scope subscribe
 //@   track call.NewObservableWithConcurrencyMode
 //@   ensures [eventually-safe-is-the-dropping-mode|C02] trace(call.NewObservableWithConcurrencyMode(subscribe, 2))
 
 //@ func NewObservableWithContext
 //@   props C01 C02
 //@   binds subscribe
+//@   scope subscribe
 //@   track call.NewSafeObservableWithContext
 //@   ensures [the-default-is-safe|C01,C02] trace(call.NewSafeObservableWithContext(subscribe))
 
 //@ func NewObservable
 //@   props C01 C02
 //@   binds subscribe
+//@   scope subscribe
 //@   track call.NewSafeObservable
 //@   ensures [the-default-is-safe|C01,C02] trace(call.NewSafeObservable(subscribe))
 
@@ -320,30 +342,35 @@ package ro
 //@   binds destination subscribe
 //@   calls fn:subscribe
 //@   params ctx destination
+//@   scope ctx destination subscribe
 //@   track callfn.subscribe
 //@   ensures [adapter-hands-the-destination-over|C01] trace(callfn.subscribe(destination)) && result == res(callfn.subscribe)
 
 //@ func NewSubscriber
 //@   props C01 C02
 //@   binds destination
+//@   scope destination
 //@   track call.NewSafeSubscriber
 //@   ensures [the-default-is-safe|C01,C02] trace(call.NewSafeSubscriber(destination))
 
 //@ func NewSafeSubscriber
 //@   props C01 C02
 //@   binds destination
+//@   scope destination
 //@   track call.NewSubscriberWithConcurrencyMode
 //@   ensures [safe-is-the-locking-mode|C01,C02] trace(call.NewSubscriberWithConcurrencyMode(destination, 0))
 
 //@ func NewUnsafeSubscriber
 //@   props C01 C02
 //@   binds destination
+//@   scope destination
 //@   track call.NewSubscriberWithConcurrencyMode
 //@   ensures [unsafe-is-the-lock-free-mode|C02] trace(call.NewSubscriberWithConcurrencyMode(destination, 1))
 
 //@ func NewEventuallySafeSubscriber
 //@   props C01 C02
 //@   binds destination
+//@   scope destination
 //@   track call.NewSubscriberWithConcurrencyMode
 //@   ensures [eventually-safe-is-the-dropping-mode|C02] trace(call.NewSubscriberWithConcurrencyMode(destination, 2))
 
@@ -351,6 +378,7 @@ package ro
 //@   note every goroutine the library starts runs under this wrapper: whatever panics there reaches the unhandled-error hook, exactly once, whatever the panic value
 //@   props C07
 //@   binds cb
+//@   scope cb e
 //@   panicforks
 //@   track hook.ANY callfn.ANY
 //@   ensures [a-panic-reaches-the-hook-once|C07] panicked(cb) ==> !panics && count(hook.OnUnhandledError) == 1
